@@ -188,6 +188,14 @@ func (enc Encryptor) EncryptNew(pt *Plaintext) (ct *Ciphertext, err error) {
 // encryption of zero is sampled in QP before being rescaled by P; otherwise, it is directly sampled in Q.
 // The zero encryption is generated according to the given [Ciphertext] [MetaData].
 func (enc Encryptor) EncryptZero(ct interface{}) (err error) {
+
+	// A fresh encryption has degree 1: the components of higher degree of the receiver are cleared.
+	if cti, isCt := ct.(*Ciphertext); isCt {
+		for i := 2; i < len(cti.Value); i++ {
+			cti.Value[i].Zero()
+		}
+	}
+
 	switch key := enc.encKey.(type) {
 	case *SecretKey:
 		return enc.encryptZeroSk(key, ct)
@@ -358,7 +366,7 @@ func (enc Encryptor) encryptZeroSk(sk *SecretKey, ct interface{}) (err error) {
 	case *Ciphertext:
 
 		var c1 ring.Poly
-		if ct.Degree() == 1 {
+		if ct.Degree() >= 1 {
 			c1 = ct.Value[1]
 		} else {
 			c1 = enc.buffQP[1].Q
